@@ -219,8 +219,34 @@ func c16Tagged(r *core.Result) {
 			}
 		}
 	}
-	r.NonTrivial = r.Obs["digests"] > 1000
-	r.Sample = map[string]any{"kind": "tagged-exhaustive", "tags": len(tags), "distinct_inputs_hashed": r.Obs["digests"]}
+	// the digest is a function of the tag's content, not of the caller's buffer: a caller that keeps one buffer and
+	// overwrites it in place (ssid || index, index rewritten per participant) gets the same digests as with fresh slices
+	byLen := map[int][][]byte{}
+	for _, tag := range tags {
+		byLen[len(tag)] = append(byLen[len(tag)], tag)
+	}
+	probe := []*big.Int{big.NewInt(7), big.NewInt(0x24)}
+	for L, group := range byLen {
+		if L == 0 || len(group) < 2 {
+			continue
+		}
+		want := make([]*big.Int, len(group))
+		for i, tag := range group {
+			want[i] = common.SHA512_256i_TAGGED(append([]byte{}, tag...), probe...)
+		}
+		buf := make([]byte, L)
+		for i, tag := range group {
+			copy(buf, tag)
+			got := common.SHA512_256i_TAGGED(buf, probe...)
+			r.Count("buffer_reuse_compared", 1)
+			if got.Cmp(want[i]) != 0 {
+				r.Fail("tagged:depends-on-buffer-identity", "SHA512_256i_TAGGED(tag=%x) returned a different digest when the tag was written into a buffer that had held tag %x before", tag, group[(i+len(group)-1)%len(group)])
+				break
+			}
+		}
+	}
+	r.NonTrivial = r.Obs["digests"] > 1000 && r.Obs["buffer_reuse_compared"] > 10
+	r.Sample = map[string]any{"kind": "tagged-exhaustive", "tags": len(tags), "distinct_inputs_hashed": r.Obs["digests"], "buffer_reuse_compared": r.Obs["buffer_reuse_compared"]}
 }
 
 // c16Cross: a tag that looks like framing must not collide with an untagged input, and a tuple moved between tag and body must differ.
